@@ -21,5 +21,9 @@ CONSTANTS
   TaxDen = 10
   MaxEdits = 3
   DTs = {1, 4}
+  EditTFs <- EditTFsDef
+  EditCaps = {10, 14}
+  MaxCalls = 4
+  Sends = {20}
 CONSTRAINT GenConstraint
 CHECK_DEADLOCK FALSE
